@@ -84,6 +84,10 @@ type c10Mismatch struct {
 	PredOK bool   `json:"pred_ok"`
 }
 
+var floatEdges = []string{"-1e-400", "1e-400", "-5e-325", "5e-324", "4.9e-324", "1e-323", "-1e-323", "-0.1e-399", "0.1e-399", "1e400", "-1e400", "1e308",
+	"1.8e308", "-1.8e308", "1.7976931348623157e308", "1.7976931348623159e308", "9007199254740993", "9007199254740992.5", "-9007199254740993",
+	"9007199254740991.9", "0.1000000000000000055511151231257827", "0.30000000000000004", "0.29999999999999999", "2.2250738585072014e-308", "1e-320", "1.0000000000000001e-320"}
+
 func init() {
 	register("c10replay", func(args []string) int {
 		fs := flag.NewFlagSet("c10replay", flag.ExitOnError)
@@ -290,12 +294,32 @@ func init() {
 				}
 			})
 		}
-		bounds := []string{"-1", "0", "0.5", "1", "1.5", "10", "-0.05", "15", "0.1", "9.9", "100", "-15", "1.05"}
+		bounds := []string{"-1", "0", "0.5", "1", "1.5", "10", "-0.05", "15", "0.1", "9.9", "100", "-15", "1.05", "0", "0", "0.3", "0.00000000000000000000000000000000000000000001", "-0.00000000000000000000000000000000000000000001"}
 		rules := []string{"min", "max", "exclusiveMinimum", "exclusiveMaximum"}
+		// every float edge against every rule and the bounds next to it
+		for _, a := range floatEdges {
+			for ri, rule := range rules {
+				for _, bound := range []string{"0", "0.3", "0.1", "0.00000000000000000000000000000000000000000001", "-0.00000000000000000000000000000000000000000001", "-1", "1.5"} {
+					ex := "1000000.5"
+					if ri%2 == 1 {
+						ex = "-1000000.5"
+					}
+					schema := fmt.Sprintf("%s // {%s: %s}", ex, []string{"min", "max"}[ri%2], bound)
+					if ri >= 2 {
+						schema = fmt.Sprintf("%s // {%s: %s, %s: true}", ex, []string{"min", "max"}[ri%2], bound, rule)
+					}
+					o := validateNum(schema, a)
+					w.Write(map[string]interface{}{"op": "rule", "rule": rule, "bound": bytesToInts([]byte(bound)), "a": bytesToInts([]byte(a)), "ok": o.OK, "code": o.Code, "kind": o.Kind, "schema": schema})
+				}
+			}
+		}
 		for i := 0; i < *napi && len(pool) > 0; i++ {
 			a := pool[r.Intn(len(pool))]
 			if i%7 == 6 {
 				a = big()
+			}
+			if i%7 == 5 { // values a binary float cannot tell from a neighbour, from zero or from infinity
+				a = floatEdges[r.Intn(len(floatEdges))]
 			}
 			t := strings.TrimPrefix(a, "-")
 			if strings.HasPrefix(t, "0e") || strings.HasPrefix(t, "0E") {
